@@ -3,6 +3,7 @@ package main
 
 import (
 	"fmt"
+	"path/filepath"
 	"go/token"
 	"go/types"
 	"reflect"
@@ -71,6 +72,7 @@ func init() {
 		"(*strings.Builder).Grow":        func(ex *Exec, c *callCtx) Value { return nil },
 		"(*strings.Builder).Reset":       mBuilderReset,
 		"strings.Repeat":           mRepeat,
+		"path/filepath.Join":      mJoinGeneric,
 		"sort.Slice":              mSortSlice,
 		"sort.Strings":            mSortStrings,
 
@@ -87,6 +89,42 @@ func init() {
 		ergoPath + ".zzItoa":    func(ex *Exec, c *callCtx) Value { return StrLit("") },
 		ergoPath + ".zzBtoa":    func(ex *Exec, c *callCtx) Value { return StrLit("") },
 		ergoPath + ".zzErrText": func(ex *Exec, c *callCtx) Value { return StrLit("") },
+		ergoPath + ".zzRepoDir": func(ex *Exec, c *callCtx) Value {
+			return ex.nondet("repoDir", "atom")
+		},
+		ergoPath + ".zzStageFile": func(ex *Exec, c *callCtx) Value { return TupleV{} },
+		ergoPath + ".zzLastStat": func(ex *Exec, c *callCtx) Value {
+			if lastStat.path == nil {
+				return TupleV{E: []Value{StrLit(""), BoolV{True}, BoolV{False}}}
+			}
+			return TupleV{E: []Value{lastStat.path, BoolV{lastStat.missing}, BoolV{lastStat.isDir}}}
+		},
+		"path/filepath.Clean": func(ex *Exec, c *callCtx) Value {
+			if s, ok := litOf(c.args[0]); ok {
+				return StrLit(filepath.Clean(s))
+			}
+			if a, ok := c.args[0].(StrV); ok {
+				if a.T.op == "uf:cleanpath" {
+					return a // Clean is idempotent
+				}
+				return StrV{T: UF("cleanpath", SInt, a.T)}
+			}
+			panic(unsupported("filepath.Clean in byte mode"))
+		},
+		"path/filepath.IsAbs": func(ex *Exec, c *callCtx) Value {
+			if s, ok := litOf(c.args[0]); ok {
+				return BoolV{BoolC(filepath.IsAbs(s))}
+			}
+			return BoolV{UF("isabs", SBool, c.args[0].(StrV).T)}
+		},
+		ergoPath + ".zzStatAny": func(ex *Exec, c *callCtx) Value {
+			// os.Stat answers arbitrarily: missing / regular file / directory
+			modelTable["os.Stat"] = mStatAny
+			modelTable["os.IsNotExist"] = func(ex *Exec, c *callCtx) Value {
+				return BoolV{c.args[0].(RefV).NonNilTerm()}
+			}
+			return nil
+		},
 		ergoPath + ".zzPinRand": func(ex *Exec, c *callCtx) Value { return nil },
 		ergoPath + ".zzReplayFrom": mReplayFrom,
 		ergoPath + ".deriveTitleAndBodyFromLegacy": func(ex *Exec, c *callCtx) Value {
@@ -129,6 +167,12 @@ func (ex *Exec) lookupModel(fn *ssa.Function) modelFn {
 }
 
 func (ex *Exec) lookupInvokeModel(t types.Type, method string) modelFn {
+	if types.Identical(t, sentinelType("zzStatInfo")) && method == "IsDir" {
+		return func(ex *Exec, c *callCtx) Value {
+			o := c.args[0].(RefV).Alts[0].Tgt.(AddrT).Obj
+			return o.val.(StructV).F[0]
+		}
+	}
 	if ex.world != nil {
 		return ex.world.lookupInvoke(t, method)
 	}
@@ -1103,4 +1147,24 @@ func unmarshalLine(ex *Exec, c *callCtx, data RefV) Value {
 		return NilRef()
 	}
 	return MergeV(bad, ex.newError("json-line", nil), NilRef())
+}
+
+var statAnyCount int
+
+var lastStat struct {
+	path           Value
+	missing, isDir *Term
+}
+
+func mStatAny(ex *Exec, c *callCtx) Value {
+	statAnyCount++
+	defer func() {
+		lastStat.path = c.args[0]
+	}()
+	missing := ex.nondet(fmt.Sprintf("stat.missing!%d", statAnyCount), "bool").(BoolV).T
+	isDir := ex.nondet(fmt.Sprintf("stat.isdir!%d", statAnyCount), "bool").(BoolV).T
+	lastStat.missing, lastStat.isDir = missing, isDir
+	o := ex.newObject("statinfo", nil, StructV{F: []Value{BoolV{isDir}}})
+	info := Ref1(IfaceT{Typ: sentinelType("zzStatInfo"), V: Ref1(AddrT{Obj: o})})
+	return TupleV{E: []Value{MergeV(missing, NilRef(), info), MergeV(missing, ex.newError("stat", nil), NilRef())}}
 }
